@@ -295,7 +295,7 @@ func runC15(p *Prog, r *Report, tier string) {
 	r.check(len(outside) == 0, "store-confinement", "confinement/primitives-only-in-keeper-accessors", "",
 		fmt.Sprintf("%d store primitives, all inside methods of keeper.Keeper", nPrim),
 		fmt.Sprintf("store primitives outside keeper.Keeper accessor methods: %v", outside))
-	r.floor("store-primitives", nPrim, 45)
+	r.floor("store-primitives", nPrim, 30)
 
 	// K-disjoint
 	var regs []string
@@ -409,5 +409,5 @@ func checkExternalCalls(p *Prog, r *Report, hs, qs []Handler) {
 			}
 		}
 	}
-	r.floor("classified-external-callees", n, 40)
+	r.floor("classified-external-callees", n, 30)
 }
